@@ -22,8 +22,18 @@ def circle_pt(t):
     return c, s
 
 
+_ARANGE = [(-4.0, 4.0)]
+
+
 def rnd_angle(rng, special=0.2):
-    """(cos, sin) exact rationals and the float angle atan2(sin, cos)."""
+    """(cos, sin) exact rationals and the float angle atan2(sin, cos), inside the current motion range."""
+    while True:
+        c, s, a = _rnd_angle(rng, special)
+        if _ARANGE[0][0] <= a <= _ARANGE[0][1]:
+            return c, s, a
+
+
+def _rnd_angle(rng, special=0.2):
     if rng.random() < special:
         c, s = rng.choice([(Fr(1), Fr(0)), (Fr(0), Fr(1)), (Fr(-1), Fr(0)), (Fr(0), Fr(-1))])
     else:
@@ -70,15 +80,17 @@ def flat(*arrs):
 def impl(fun):
     """Run fun() -> list of floats; ValueError -> None; anything else is a mismatch by construction."""
     try:
-        return 'Some %s' % C.qs(fun())
+        return 'IOk %s' % C.qs(fun())
     except ValueError:
-        return 'None'
+        return 'IValueErr'
+    except TypeError:
+        return 'ITypeErr'
     except Exception as e:          # noqa
-        return 'Some []'
+        return 'IOtherErr'
 
 
-def add_case(cs, model, impl_term, desc, key):
-    cs.add('{| k_model := %s; k_impl := %s |}' % (model, impl_term), desc, key)
+def add_case(cs, model, impl_term, desc, key, typeerr=False):
+    cs.add('{| k_model := %s; k_impl := %s; k_typeerr := %s |}' % (model, impl_term, C.b(typeerr)), desc, key)
 
 
 # ---------------------------------------------------- detector parameters
@@ -106,7 +118,10 @@ def dpar3_cyl(rng):
 
 def dpar3_sph(rng):
     c, s, a = rnd_angle(rng)
-    c2, s2, a2 = rnd_angle(rng)
+    while True:
+        c2, s2, a2 = rnd_angle(rng)
+        if c2 != 0:                 # the poles of the sphere have no normal (0/0)
+            break
     return (a, a2), '(%s, %s, (%s, %s), (%s, %s))' % (C.q(a), C.q(a2), C.q(c), C.q(s), C.q(c2), C.q(s2))
 
 
@@ -202,6 +217,35 @@ def par2d_slice_fixed():
     return bool(np.allclose(h.det_pos_init, [4.0, 6.0]))
 
 
+def cone_slice_curved_raises():
+    """Measured variant: does ConeBeamGeometry.__getitem__ raise TypeError for a curved detector?"""
+    import odl
+    ap, dp = _parts(odl, 2)
+    g = odl.tomo.ConeBeamGeometry(ap, dp, 5.0, 5.0, det_curvature_radius=(2.5, None))
+    try:
+        g[1:3]
+        return False
+    except TypeError:
+        return True
+
+
+def _float_perp(odl, axis, axes, m=None):
+    """Would the detector axes the constructor computes be EXACTLY perpendicular in floating point?
+    (Cylindrical/SphericalDetector test dot != 0; when rounding decides, the input is outside the
+    exact-arithmetic model and is left to the probe 'cone-curved-axes-exact-perpendicularity'.)"""
+    from odl.tomo.util.utility import transform_system
+    try:
+        if m is not None:
+            vecs = transform_system((0, 0, 1), None, [(1, 0, 0), (0, 0, 1)], matrix=np.array(m, dtype=float))
+        elif axes is not None:
+            return float(np.dot(fl(axes[0]), fl(axes[1]))) == 0.0
+        else:
+            vecs = transform_system(fl(axis), (0, 0, 1), [(1, 0, 0), (0, 0, 1)])
+        return float(np.dot(vecs[1], vecs[2])) == 0.0
+    except Exception:
+        return True
+
+
 # ------------------------------------------------------------ correspondence
 def _rnd_vec(rng, pyth, gen, p_gen=0.3):
     return list(rng.choice(gen if rng.random() < p_gen else pyth))
@@ -236,13 +280,18 @@ def _axes3(rng):
             return [tuple(a0), tuple(a1)]
 
 
+PERP3 = [((3, 4, 0), (0, 0, 2)), ((1, 2, 2), (2, 1, -2)), ((2, -2, 1), (1, 2, 2)), ((0, -1, 0), (0, 0, 1)),
+         ((1, 0, 0), (0, 0, 1)), ((12, 5, 0), (0, 0, -1)), ((2, 3, 6), (3, -6, 2)), ((6, 2, -3), (2, 3, 6)),
+         ((1, 1, 0), (1, -1, 0)), ((1, 1, 1), (1, -2, 1)), ((0, 0, 3), (0, 2, 0)), ((4, 4, 7), (1, -8, 4))]
+
+
 def _perp_axes3(rng):
-    """Perpendicular axes (curved detectors demand dot == 0 exactly)."""
-    m = _rot3(rng)
-    cols = [[m[i][j] for i in range(3)] for j in range(3)]
-    k0, k1 = rng.choice([1, 2, 3]), rng.choice([1, 2])
-    i, j = rng.sample([0, 1, 2], 2)
-    return [tuple(k0 * x for x in cols[i]), tuple(k1 * x for x in cols[j])]
+    """Perpendicular integer axes (curved detectors demand float dot == 0 exactly)."""
+    a0, a1 = rng.choice(PERP3)
+    if rng.random() < 0.5:
+        a0, a1 = a1, a0
+    sg = rng.choice([1, -1])
+    return [tuple(sg * x for x in a0), tuple(a1)]
 
 
 def utility_cases(rng, tier):
@@ -288,6 +337,16 @@ def utility_cases(rng, tier):
     return cs
 
 
+def _slice(rng, mode):
+    """Angle-index slice of the 8-cell motion partition [-4, 4]; evaluation angles are drawn inside it."""
+    if mode != 'slice':
+        _ARANGE[0] = (-4.0, 4.0)
+        return 0, 8
+    i, j = rng.choice([(0, 8), (1, 7), (2, 8), (4, 8), (0, 4), (3, 5), (4, 5)])
+    _ARANGE[0] = (-4.0 + i, -4.0 + j)
+    return i, j
+
+
 def _pts2(rng, n, curved):
     pts, terms = [], []
     for _ in range(n):
@@ -319,12 +378,13 @@ def par2d_cases(rng, tier, fixed):
         if r < 0.06:
             pos = [0, 0]
         elif r < 0.12:
-            pos = [1e-7, 1.0]            # inside the allclose window of transform_system
+            pos = rng.choice([[1e-9, 1.0], [0.0009765625, 1.0]])   # inside / just outside the allclose window
         axis = None if rng.random() < 0.5 else _rnd_vec(rng, PYTH2 + [(1, 0)], GEN2)
         if axis is not None and rng.random() < 0.08:
             axis = [0, 0]
         tr = rng.choice([[0, 0], [1, -2], [0.5, 0.25], [-3, 1]])
         mode = rng.choice(['ctor', 'ctor', 'slice', 'matrix'])
+        i, j = _slice(rng, mode)
         pts, terms = _pts2(rng, 2 if tier == 'quick' else 4, False)
         ptt = C.lst(['((%s, %s), %s)' % (C.q(c), C.q(s), ut) for c, s, a, ut in terms])
         if mode == 'matrix':
@@ -335,7 +395,7 @@ def par2d_cases(rng, tier, fixed):
             with_tr = rng.random() < 0.6
             mat = [fl(row) + ([float(t)] if with_tr else []) for row, t in zip(m, tr)]
             trm = tr if with_tr else [0, 0]
-            model = 'obs_par2d (par2d_frommatrix rt %s %s) %s' % (qm(m), qv(trm), ptt)
+            model = 'obs_par2d (q_par2d_frommatrix %s %s) %s' % (qm(m), qv(trm), ptt)
             it = impl(lambda: obs_par2d(odl.tomo.Parallel2dGeometry.frommatrix(ap, dp, mat), pts))
             desc = {'class': 'Parallel2dGeometry.frommatrix', 'init_matrix': mat}
             key = ('par2d', 'matrix', str(mat))
@@ -345,7 +405,7 @@ def par2d_cases(rng, tier, fixed):
                 if axis is not None:
                     kw['det_axis_init'] = fl(axis)
                 return odl.tomo.Parallel2dGeometry(ap, dp, det_pos_init=fl(pos), translation=fl(tr), **kw)
-            mk = 'mk_par2d rt %s %s %s' % (qv(pos), opt(axis, qv), qv(tr))
+            mk = 'q_mk_par2d %s %s %s' % (qv(pos), opt(axis, qv), qv(tr))
             desc = {'class': 'Parallel2dGeometry', 'det_pos_init': pos, 'det_axis_init': axis, 'translation': tr,
                     'mode': mode}
             key = ('par2d', mode, tuple(pos), None if axis is None else tuple(axis), tuple(tr))
@@ -353,8 +413,7 @@ def par2d_cases(rng, tier, fixed):
                 model = 'obs_par2d (%s) %s' % (mk, ptt)
                 it = impl(lambda: obs_par2d(build(), pts))
             else:
-                i, j = rng.choice([(0, 8), (1, 3), (2, 3), (5, 8)])
-                model = ('obs_par2d (bindg (%s) (fun g => par2d_getitem rt %s g %s)) %s'
+                model = ('obs_par2d (bindg (%s) (fun g => q_par2d_getitem %s g %s)) %s'
                          % (mk, C.b(fixed), opt(axis, qv), ptt))
                 it = impl(lambda: obs_par2d(build()[i:j], pts))
                 desc['slice'] = [i, j]
@@ -371,6 +430,7 @@ def par3_cases(rng, tier):
         tr = rng.choice([[0, 0, 0], [1, -2, 0.5], [0.25, 0, -3]])
         axes = _axes3(rng)
         mode = rng.choice(['ctor', 'ctor', 'matrix'] + (['slice'] if cls == 'axis' else []))
+        i, j = _slice(rng, mode)
         npt = 2 if tier == 'quick' else 4
         if mode == 'matrix':
             m = _rot3(rng) if rng.random() < 0.6 else [[rng.randint(-2, 2) for _ in range(3)] for _ in range(3)]
@@ -388,7 +448,7 @@ def par3_cases(rng, tier):
             pts, terms = _pts3(rng, npt, 'flat')
             ptt = C.lst(['((%s, %s), %s)' % (C.q(c), C.q(s), ut) for c, s, a, ut in terms])
             if mode == 'matrix':
-                model = 'obs_par3a (par3a_frommatrix rt %s %s) %s' % (qm(m), qv(trm), ptt)
+                model = 'obs_par3a (q_par3a_frommatrix %s %s) %s' % (qm(m), qv(trm), ptt)
                 it = impl(lambda: obs_par3a(odl.tomo.Parallel3dAxisGeometry.frommatrix(ap, dp, mat), pts))
                 desc = {'class': 'Parallel3dAxisGeometry.frommatrix', 'init_matrix': mat}
                 key = ('par3a', 'matrix', str(mat))
@@ -400,7 +460,7 @@ def par3_cases(rng, tier):
                     if axes is not None:
                         kw['det_axes_init'] = [fl(a) for a in axes]
                     return odl.tomo.Parallel3dAxisGeometry(ap, dp, axis=fl(axis), translation=fl(tr), **kw)
-                mk = 'mk_par3a rt %s %s %s %s' % (qv(axis), opt(pos, qv), opt(axes, qv2), qv(tr))
+                mk = 'q_mk_par3a %s %s %s %s' % (qv(axis), opt(pos, qv), opt(axes, qv2), qv(tr))
                 desc = {'class': 'Parallel3dAxisGeometry', 'axis': axis, 'det_pos_init': pos, 'det_axes_init': axes,
                         'translation': tr, 'mode': mode}
                 key = ('par3a', mode, tuple(axis), str(pos), str(axes), tuple(tr))
@@ -408,8 +468,7 @@ def par3_cases(rng, tier):
                     model = 'obs_par3a (%s) %s' % (mk, ptt)
                     it = impl(lambda: obs_par3a(build(), pts))
                 else:
-                    i, j = rng.choice([(0, 8), (1, 3), (2, 3)])
-                    model = 'obs_par3a (bindg (%s) (par3a_getitem rt)) %s' % (mk, ptt)
+                    model = 'obs_par3a (bindg (%s) (q_par3a_getitem)) %s' % (mk, ptt)
                     it = impl(lambda: obs_par3a(build()[i:j], pts))
         else:
             nm = 2 if cls == 'euler2' else 3
@@ -428,7 +487,7 @@ def par3_cases(rng, tier):
                              % tuple([C.q(x) for a in angs for x in a[:2]] + [ut]))
             ptt = C.lst(terms)
             if mode == 'matrix':
-                model = 'obs_par3d (par3d_frommatrix rt %s %s) %s' % (qm(m), qv(trm), ptt)
+                model = 'obs_par3d (q_par3d_frommatrix %s %s) %s' % (qm(m), qv(trm), ptt)
                 it = impl(lambda: obs_par3d(odl.tomo.Parallel3dEulerGeometry.frommatrix(ap, dp, mat), pts))
                 desc = {'class': 'Parallel3dEulerGeometry.frommatrix', 'init_matrix': mat, 'motion_ndim': nm}
                 key = ('par3d', 'matrix', nm, str(mat))
@@ -438,7 +497,7 @@ def par3_cases(rng, tier):
                     if axes is not None:
                         kw['det_axes_init'] = [fl(a) for a in axes]
                     return odl.tomo.Parallel3dEulerGeometry(ap, dp, det_pos_init=fl(pos), translation=fl(tr), **kw)
-                model = 'obs_par3d (mk_par3d rt %s %s %s) %s' % (qv(pos), opt(axes, qv2), qv(tr), ptt)
+                model = 'obs_par3d (q_mk_par3d %s %s %s) %s' % (qv(pos), opt(axes, qv2), qv(tr), ptt)
                 it = impl(lambda: obs_par3d(build(), pts))
                 desc = {'class': 'Parallel3dEulerGeometry', 'det_pos_init': pos, 'det_axes_init': axes,
                         'translation': tr, 'motion_ndim': nm}
@@ -462,6 +521,7 @@ def fan_cases(rng, tier):
         curv = None if rng.random() < 0.5 else rng.choice([1.0, 2.5, 4.0, 0.0, -1.0])
         ssf, dsf = rnd_shift(rng, 2), rnd_shift(rng, 2)
         mode = rng.choice(['ctor', 'ctor', 'slice', 'matrix'])
+        i, j = _slice(rng, mode)
         pts, terms = _pts2(rng, 2 if tier == 'quick' else 4, curv is not None)
         ptt = C.lst(['((%s, %s), %s, %s, %s)' % (C.q(c), C.q(s), qv(ssf.at(a) if ssf else [0, 0]),
                                                qv(dsf.at(a) if dsf else [0, 0]), ut) for c, s, a, ut in terms])
@@ -480,7 +540,7 @@ def fan_cases(rng, tier):
             with_tr = rng.random() < 0.6
             mat = [fl(row) + ([float(t)] if with_tr else []) for row, t in zip(m, tr)]
             trm = tr if with_tr else [0, 0]
-            model = 'obs_fan (fan_frommatrix rt %s %s %s %s %s) %s' % (C.q(rs), C.q(rd), opt(curv, C.q), qm(m), qv(trm), ptt)
+            model = 'obs_fan (q_fan_frommatrix %s %s %s %s %s) %s' % (C.q(rs), C.q(rd), opt(curv, C.q), qm(m), qv(trm), ptt)
             it = impl(lambda: obs_fan(odl.tomo.FanBeamGeometry.frommatrix(ap, dp, rs, rd, mat, det_curvature_radius=curv,
                                                                             **kw), pts))
             desc['init_matrix'] = mat
@@ -492,19 +552,18 @@ def fan_cases(rng, tier):
                     k2['det_axis_init'] = fl(axis)
                 return odl.tomo.FanBeamGeometry(ap, dp, rs, rd, det_curvature_radius=curv, src_to_det_init=fl(s2d),
                                                 translation=fl(tr), **k2)
-            mk = 'mk_fan rt %s %s %s %s %s %s' % (C.q(rs), C.q(rd), opt(curv, C.q), qv(s2d), opt(axis, qv), qv(tr))
+            mk = 'q_mk_fan %s %s %s %s %s %s' % (C.q(rs), C.q(rd), opt(curv, C.q), qv(s2d), opt(axis, qv), qv(tr))
             if mode == 'ctor':
                 model = 'obs_fan (%s) %s' % (mk, ptt)
                 it = impl(lambda: obs_fan(build(), pts))
             else:
-                i, j = rng.choice([(0, 8), (1, 3), (4, 5)])
-                model = 'obs_fan (bindg (%s) (fun g => fan_getitem rt g %s)) %s' % (mk, opt(axis, qv), ptt)
+                model = 'obs_fan (bindg (%s) (fun g => q_fan_getitem g %s)) %s' % (mk, opt(axis, qv), ptt)
                 it = impl(lambda: obs_fan(build()[i:j], pts))
         add_case(cs, model, it, desc, key)
     return cs
 
 
-def cone_cases(rng, tier):
+def cone_cases(rng, tier, slice_raises):
     import odl
     cs = C.CaseSet('cone', IMPORTS, 'check', 'case')
     ap, dp = _parts(odl, 2)
@@ -519,6 +578,11 @@ def cone_cases(rng, tier):
             s2d = None                    # tangent would be 0/0
         kind = rng.choice(['flat', 'flat', 'cyl', 'sph'])
         axes = _axes3(rng) if kind == 'flat' else (_perp_axes3(rng) if rng.random() < 0.7 else None)
+        if kind != 'flat' and axes is None and tuple(axis) in GEN3:
+            # default axes of a curved detector: the exact perpendicularity test needs exact roots
+            axis = list(rng.choice(PYTH3))
+            if s2d is not None and np.linalg.norm(np.cross(s2d, axis)) == 0:
+                s2d = None
         tr = rng.choice([[0, 0, 0], [1, -2, 0.5], [0.25, 0, -3]])
         rs, rd = rng.choice([(2, 1), (5, 5), (3, 0), (0, 4), (1.5, 2.25), (-1, 2), (7, 3)])
         pitch = rng.choice([0, 0, 2.0, -0.5, 3.0])
@@ -527,9 +591,10 @@ def cone_cases(rng, tier):
         curv = {'flat': None, 'cyl': (rad, None), 'sph': (rad, rad)}[kind]
         if kind == 'cyl' and rng.random() < 0.3:
             curv = (rad, float('inf'))
-        curvt = {'flat': 'CFlat', 'cyl': '(CCyl %s)' % C.q(rad), 'sph': '(CSph %s)' % C.q(rad)}[kind]
+        curvt = {'flat': 'q_CFlat', 'cyl': '(q_CCyl %s)' % C.q(rad), 'sph': '(q_CSph %s)' % C.q(rad)}[kind]
         ssf, dsf = rnd_shift(rng, 3), rnd_shift(rng, 3)
         mode = rng.choice(['ctor', 'ctor', 'slice', 'matrix'])
+        i, j = _slice(rng, mode)
         pts, terms = _pts3(rng, 2 if tier == 'quick' else 3, kind)
         ptt = C.lst(['((%s, %s), %s, %s, %s, %s)' % (C.q(c), C.q(s), C.q(a), qv(ssf.at(a) if ssf else [0, 0, 0]),
                                                    qv(dsf.at(a) if dsf else [0, 0, 0]), ut) for c, s, a, ut in terms])
@@ -544,18 +609,26 @@ def cone_cases(rng, tier):
                 'src_shift': None if ssf is None else [ssf.c0.tolist(), ssf.c1.tolist()],
                 'det_shift': None if dsf is None else [dsf.c0.tolist(), dsf.c1.tolist()]}
         key = ('cone', C.digest(desc))
+        typeerr = (mode == 'slice' and kind != 'flat' and slice_raises)
         if mode == 'matrix':
             m = _rot3(rng)
+            if kind != 'flat' and not _float_perp(odl, None, None, [fl(r) for r in m]):
+                m = [[0, -1, 0], [1, 0, 0], [0, 0, 1]]
             with_tr = rng.random() < 0.6
             mat = [fl(row) + ([float(t)] if with_tr else []) for row, t in zip(m, tr)]
             trm = tr if with_tr else [0, 0, 0]
-            model = ('obs_cone (cone_frommatrix rt %s %s %s %s %s %s %s) %s %s'
+            model = ('obs_cone (q_cone_frommatrix %s %s %s %s %s %s %s) %s %s'
                      % (C.q(rs), C.q(rd), curvt, C.q(pitch), C.q(off), qm(m), qv(trm), C.q(twopi), ptt))
             it = impl(lambda: obs_cone(odl.tomo.ConeBeamGeometry.frommatrix(
                 ap, dp, rs, rd, mat, det_curvature_radius=curv, pitch=pitch, offset_along_axis=off, **kw), pts))
             desc['init_matrix'] = str(mat)
             key = ('cone', C.digest(desc))
         else:
+            if kind != 'flat' and not _float_perp(odl, axis, axes):
+                axes = _perp_axes3(rng)
+                desc['det_axes_init'] = str(axes)
+                key = ('cone', C.digest(desc))
+
             def build():
                 k2 = dict(kw)
                 if s2d is not None:
@@ -564,23 +637,25 @@ def cone_cases(rng, tier):
                     k2['det_axes_init'] = [fl(a) for a in axes]
                 return odl.tomo.ConeBeamGeometry(ap, dp, rs, rd, det_curvature_radius=curv, pitch=pitch, axis=fl(axis),
                                                  offset_along_axis=off, translation=fl(tr), **k2)
-            mk = ('mk_cone rt %s %s %s %s %s %s %s %s %s'
+            mk = ('q_mk_cone %s %s %s %s %s %s %s %s %s'
                   % (C.q(rs), C.q(rd), curvt, C.q(pitch), C.q(off), qv(axis), opt(s2d, qv), opt(axes, qv2), qv(tr)))
             if mode == 'ctor':
                 model = 'obs_cone (%s) %s %s' % (mk, C.q(twopi), ptt)
                 it = impl(lambda: obs_cone(build(), pts))
             else:
-                i, j = rng.choice([(0, 8), (1, 3), (4, 5)])
-                model = 'obs_cone (bindg (%s) (cone_getitem rt)) %s %s' % (mk, C.q(twopi), ptt)
+                model = 'obs_cone (bindg (%s) (q_cone_getitem)) %s %s' % (mk, C.q(twopi), ptt)
                 it = impl(lambda: obs_cone(build()[i:j], pts))
-        add_case(cs, model, it, desc, key)
+        add_case(cs, model, it, desc, key, typeerr)
     return cs
 
 
 def correspondence(rng, tier):
     fixed = par2d_slice_fixed()
-    return [utility_cases(rng, tier), par2d_cases(rng, tier, fixed), par3_cases(rng, tier), fan_cases(rng, tier),
-            cone_cases(rng, tier)]
+    _ARANGE[0] = (-4.0, 4.0)
+    out = [utility_cases(rng, tier), par2d_cases(rng, tier, fixed), par3_cases(rng, tier), fan_cases(rng, tier),
+           cone_cases(rng, tier, cone_slice_curved_raises())]
+    _ARANGE[0] = (-4.0, 4.0)
+    return out
 
 
 def probes(rng, tier):
